@@ -479,6 +479,10 @@ def _canon_out(col, raw):
         return 'raises'
     try:
         if col['kind'] in ('text_emb', 'image_emb'):
+            want = {'f32': 'torch.float32', 'f64': 'torch.float64', 'i64': 'torch.int64'}[col.get('odt', 'f32')]
+            got = str(raw.values.dtype)
+            if got != want:      # "row i is the callable's output for row i" - batched or not - includes its dtype
+                return {'dtype-changed': [want, got]}
             return {'ok': met_repr(raw)}
         return {'ok': [[k, mnt_repr(m)] for k, m in raw.items()]}
     except Exception:
